@@ -6,7 +6,7 @@ use crate::util::*;
 use stun_types::attribute::*;
 use stun_types::message::*;
 
-pub fn n_cases(tier: &str, quick: u64, thorough: u64) -> u64 { if tier == "thorough" { thorough } else { quick } }
+pub fn n_cases(tier: &str, quick: u64, thorough: u64) -> u64 { if tier == "thorough" { thorough * 4 } else { quick } }
 
 fn corpus_run(rep: &mut Report, mode: &str, tier: &str, seed: u64, fl: &Flags, quick: u64, thorough: u64) {
     let mut rng = Rng::new(seed);
